@@ -20,6 +20,8 @@ def selectors(n, tier):
     out = []
     for k in list(range(0, n)) + list(range(-n, 0)):
         out.append(('i', k))
+    out.append(('I', 0))          # numpy integer scalars (e.g. an argmax result)
+    out.append(('I', -1))
     # one spelling of every distinct slice result + odd spellings
     seen = {}
     bounds = [None] + list(range(0, n + 2)) + list(range(-n - 1, 0))
@@ -48,7 +50,7 @@ def selectors(n, tier):
 
 
 def sel_class(s):
-    if s[0] == 'i':
+    if s[0] in ('i', 'I'):
         return 'int' if s[1] >= 0 else 'negint'
     if s[0] == 's':
         return 'slice'
@@ -72,7 +74,8 @@ class Prop(core.Prop):
 
     def bounds(self, tier):
         return {'t': [1, 2] if tier == 'quick' else [1, 2, 3], 'z': [1, 2], 'x': [1, 2, 3],
-                'kinds': [['A', 'M', 'B', 'X', 'Zx', 'S'], ['A', 'M', 'B', 'Zx', 'S']],
+                'kinds': [['A', 'M', 'B', 'X', 'Zx', 'S', 'M0'], ['A', 'M', 'B', 'Zx', 'S']],
+                'ioapi': 'gridded ioapi_base files TSTEP<=4 x LAY,ROW,COL<=2; 1-2 selected dimensions',
                 'max_dims_selected': 2 if tier == 'quick' else 3,
                 'selectors_per_axis(n=3)': len(selectors(3, tier)),
                 'keyword_orders': 'both for pairs'}
@@ -90,8 +93,24 @@ class Prop(core.Prop):
                         for r in range(1, b['max_dims_selected'] + 1):
                             for sub in itertools.combinations(dims, r):
                                 yield {'file': frec, 'dims': list(sub)}
+        from .. import ioapi_u
+        idims = ['TSTEP', 'LAY', 'ROW', 'COL']
+        for nt, nl, nr, nc, start in ((4, 2, 2, 2, 0), (1, 1, 1, 1, 1), (3, 2, 1, 2, 2)):
+            rec = ioapi_u.recipe(nt=nt, nl=nl, nr=nr, nc=nc, nv=2, start=start)
+            for r in (1, 2):
+                for sub in itertools.combinations(idims, r):
+                    if tier == 'quick' and r == 2 and 'TSTEP' not in sub and nt != 4:
+                        continue
+                    yield {'ioapi': rec, 'dims': list(sub)}
 
     def expand(self, group):
+        if 'ioapi' in group:
+            rec = group['ioapi']
+            n = {'TSTEP': rec['nt'], 'LAY': rec['nl'], 'ROW': rec['nr'], 'COL': rec['nc']}
+            axes = [selectors(n[d], self.tier) for d in group['dims']]
+            for combo in itertools.product(*axes):
+                yield {'ioapi': rec, 'sel': [[d, list(s)] for d, s in zip(group['dims'], combo)]}
+            return
         lens = group['file']['lens']
         axes = [selectors(lens[d], self.tier) for d in group['dims']]
         for combo in itertools.product(*axes):
@@ -101,14 +120,24 @@ class Prop(core.Prop):
                 yield {'file': group['file'], 'sel': sel[::-1]}
 
     def run_one(self, case):
-        real = lib.to_real(rfile.ufile(case['file']))
+        isio = 'ioapi' in case
+        if isio:
+            from .. import ioapi_u
+            real = ioapi_u.build(case['ioapi'])
+        else:
+            real = lib.to_real(rfile.ufile(case['file']))
         rf = lib.snap(real, cls='PseudoNetCDFFile')   # reference input := the real input as built
         sel = OrderedDict((d, tuple(s)) for d, s in case['sel'])
         classes = sorted(sel_class(s) for s in sel.values())
         sigcls = '+'.join(classes)
+        opname = 'ioapi.sliceDimensions' if isio else 'sliceDimensions'
         try:
             exp = rops.rslice(rf, sel)
             indomain = True
+            if isio and any(exp.dims[d][0] == 0 for d in sel):
+                # IOAPI metadata (SDATE, VGLVLS, XORIG ...) is undefined for an
+                # empty window: out of the wrapper's domain
+                indomain = False
         except rops.OutOfDomain:
             exp, indomain = None, False
         before = rfile.canon(rf)
@@ -124,7 +153,7 @@ class Prop(core.Prop):
             if indomain:
                 nempty = sum(1 for s_ in sel.values() if s_[0] == 'l' and len(s_[1]) == 0)
                 nlist = sum(1 for s_ in sel.values() if s_[0] == 'l')
-                vs.append(viol('in-domain-raises', ('sliceDimensions', sigcls),
+                vs.append(viol('in-domain-raises', (opname, sigcls),
                                '%s: %r' % (type(raised).__name__, raised), selcls=sigcls,
                                empty_lists=bool(nlist >= 2 and nempty == nlist),
                                exc=type(raised).__name__))
@@ -132,12 +161,31 @@ class Prop(core.Prop):
             return result('ood-raise', [], states)
         wf = lib.wellformed(got)
         if wf:
-            vs.append(viol('not-wellformed', ('sliceDimensions', sigcls), '; '.join(wf),
+            vs.append(viol('not-wellformed', (opname, sigcls), '; '.join(wf),
                            selcls=sigcls))
         if not indomain:
             return result('ood-returned' if not vs else 'viol', vs, states)
         snap = lib.snap(got, cls=rf.cls)
-        diffs = rfile.file_diff(snap, exp, order=True)
+        if isio:
+            # IOAPI wrapper: geo/time attributes are re-derived (C11/C10); the
+            # hyperslab of every variable incl. TFLAG and the dimensions are C02
+            exp.dims.setdefault('DATE-TIME', [2, False])
+            # the statement leaves open whether zipped dimensions survive when no
+            # variable uses them any more (the IOAPI wrapper removes ROW and COL)
+            for d_ in [d_ for d_, s_ in sel.items() if s_[0] == 'l']:
+                if d_ not in snap.dims and d_ in exp.dims and \
+                        not any(d_ in v_.dims for v_ in exp.vars.values()):
+                    del exp.dims[d_]
+            if snap.dims.get('VAR', [None])[0] != rf.dims['VAR'][0]:
+                # zipped selection turned the data variables into non-IOAPI
+                # variables: VAR/TFLAG are re-derived metadata (C10), not a hyperslab
+                for o in (snap, exp):
+                    o.dims.pop('VAR', None)
+                    o.vars.pop('TFLAG', None)
+            diffs = rfile.file_diff(snap, exp, order=False, gattrs=False, unlimited=False)
+            diffs = [d_ for d_ in diffs if 'attribute' not in d_ or 'TFLAG' not in d_]
+        else:
+            diffs = rfile.file_diff(snap, exp, order=True)
         ecanon = rfile.canon(exp)
         states.append(ecanon)
         if diffs:
@@ -147,7 +195,7 @@ class Prop(core.Prop):
                 what = 'attributes'
             elif all(d.startswith('dimensions') for d in diffs):
                 what = 'dimension-lengths'
-            vs.append(viol(what + '-differs', ('sliceDimensions', sigcls),
+            vs.append(viol(what + '-differs', (opname, sigcls),
                            '; '.join(diffs)[:1500], selcls=sigcls))
         nt = h64(before, case['sel'], ecanon) if ecanon != before else None
         zipped = sum(1 for s in sel.values() if s[0] == 'l') >= 2
